@@ -17,12 +17,12 @@ ID = 'C09'
 RULE = ('Cases = scene (split_candidate 50%, layered, merge_chain, ref_window, canonical demo data) x parameters x an '
         'arbitrary prior global NumPy RNG state (seed + k uniform draws + 0-3 normal draws, so that states holding a cached '
         'Gaussian occur) x a history of 0-5 intermediate ops (draw from the global '
-        'RNG, run another scene, canonical_demo_data(), a tmp_seed block whose body raises, default_rng use). Oracle: (a) '
+        'RNG, run another scene, run the same hits under other parameters, canonical_demo_data(), a tmp_seed block whose body raises, default_rng use). Oracle: (a) '
         'numpy.random.get_state() is bit-identical before and after every ampycloud call (run, metar_msg, '
         'canonical_demo_data, raising tmp_seed body); (b) the SHA-1 digest of the snapshot (three tables, chunk.data with '
         'per-hit ids, three messages, flag) of the case is the same before and after the history, under different prior '
         'RNG states; (c) differential across processes: each shard re-evaluates all its cases in 3 fresh interpreters '
-        'started with PYTHONHASHSEED in {1, 4242, random}, in reversed / rotated order, and every digest must equal the '
+        'started with PYTHONHASHSEED in {1, 4242, random}, in reversed / rotated order - the second one processing the same hits under other parameters right before each case - and every digest must equal the '
         'in-process one (the harness itself runs with PYTHONHASHSEED=0). Thread counts are pinned to 1. Non-trivial = the '
         'mixture model was engaged (a group with ncomp != -1). Distinct by (digest, history kinds).')
 ASSUMPTIONS = ['numerical-library thread counts fixed at 1 (OMP/OPENBLAS/MKL_NUM_THREADS=1), as the quantifier states',
@@ -33,11 +33,13 @@ CORPUS = ['pipeline', 'rng_sensitive']
 
 
 def from_corpus(case):
-    return dict(case, rng=[20240517, 3, 1], history=['draw', 'tmp_seed_raise', 'run_other'],
+    return dict(case, rng=[20240517, 3, 1], history=['draw', 'tmp_seed_raise', 'same_data_other_prms', 'run_other'],
+                alt_prms={'LOWESS': {'frac': 0.9, 'it': 1}, 'MAX_HITS_OKTA0': 0, 'GROUPING_PRMS': {'dt_scale': 60}},
                 other_rows=[['a', -10.0, 1000.0, 1], ['a', -5.0, 1010.0, 1]])
 CASES = {'quick': 176, 'thorough': 3200}
 WEIGHTS = {'split_candidate': 8, 'layered': 3, 'merge_chain': 2, 'ref_window': 2, 'degenerate': 1}
-HIST_OPS = ['draw', 'run_other', 'demo', 'tmp_seed_raise', 'default_rng', 'legacy_seed']
+HIST_OPS = ['draw', 'run_other', 'demo', 'tmp_seed_raise', 'default_rng', 'legacy_seed', 'same_data_other_prms',
+            'same_data_other_prms']
 _COLLECT = []
 
 
@@ -48,6 +50,7 @@ def strategy_(draw):
         case = {'cls': 'demo', 'rows': None, 'prms': {'MSA': 10000}}
     case['rng'] = [draw(st.integers(0, 2 ** 32 - 1)), draw(st.integers(0, 50)), draw(st.integers(0, 3))]
     case['history'] = draw(st.lists(st.sampled_from(HIST_OPS), max_size=5))
+    case['alt_prms'] = draw(S.leaf_assignment(1, 4))
     other = draw(S.scene_layered(max_layers=2, n_t=(3, 15), n_ceilos=(1, 2)))
     case['other_rows'] = other['rows'][:60]
     return case
@@ -122,6 +125,15 @@ def check(case):
                         lambda: observe.run_case({'rows': case['other_rows'], 'prms': {}}).metar_msg())
             except Exception:
                 pass
+        elif op == 'same_data_other_prms':
+            # the very same hits under other parameters: anything ampycloud remembers about the data must be
+            # keyed on the parameters too
+            try:
+                alt = S.merge_dict(case['prms'], case.get('alt_prms') or {'LOWESS': {'frac': 0.9, 'it': 1}})
+                guarded(res, 'run() on the same data with other parameters',
+                        lambda: observe.run_case({'rows': rows_of(case), 'prms': alt}).metar_msg())
+            except Exception:
+                pass
         elif op == 'demo':
             a = guarded(res, 'canonical_demo_data()', mocker.canonical_demo_data)
             b = mocker.canonical_demo_data()
@@ -144,7 +156,7 @@ def check(case):
     except Exception as exc:
         res.fail('repeat', 'second run crashed although the first did not: ' + observe.crash_sig(exc), repr(exc))
     if case.get('xproc') is not None:
-        got = remote_digests([case], str(case['xproc']))
+        got = remote_digests([case], str(case['xproc']), pre_alt=(str(case['xproc']) == '4242'))
         if got and got[0] != d1:
             res.fail('xproc', 'a fresh interpreter gives a different result',
                      f"PYTHONHASHSEED={case['xproc']} {got[0]} vs {d1}")
@@ -160,11 +172,13 @@ def check(case):
     return res
 
 
-def remote_digests(cases, hashseed):
+def remote_digests(cases, hashseed, pre_alt=False):
     env = dict(os.environ, PYTHONHASHSEED=hashseed)
     if hashseed == 'random':
         env['PYTHONHASHSEED'] = 'random'
-    payload = json.dumps([{'rows': c['rows'], 'prms': c['prms'], 'cls': c['cls']} for c in cases])
+    payload = json.dumps([{'rows': c['rows'], 'prms': c['prms'], 'cls': c['cls'],
+                           'pre_alt': (c.get('alt_prms') or {'LOWESS': {'frac': 0.9, 'it': 1}}) if pre_alt else None}
+                          for c in cases])
     out = subprocess.run([sys.executable, '-m', 'vlib.props.c09'], input=payload, env=env, cwd=runner.VERIF,
                          capture_output=True, text=True)
     if out.returncode != 0:
@@ -189,7 +203,9 @@ def run_job(job, ctx):
               '4242': list(range(len(done) // 2, len(done))) + list(range(len(done) // 2)),
               'random': list(range(len(done)))}
     for hs, order in orders.items():
-        got = remote_digests([done[i][0] for i in order], hs)
+        # the interpreter started with hash seed 4242 first processes the same hits under other parameters
+        # (a different history than the in-process evaluation, where the case itself came first)
+        got = remote_digests([done[i][0] for i in order], hs, pre_alt=(hs == '4242'))
         ctx.stats.evaluations += len(order)
         for i, g in zip(order, got):
             if g != done[i][1]:
@@ -208,6 +224,11 @@ if __name__ == '__main__':
     out = []
     for c in json.loads(sys.stdin.read()):
         try:
+            if c.get('pre_alt'):
+                try:
+                    observe.run_case({'rows': rows_of(c), 'prms': S.merge_dict(c['prms'], c['pre_alt'])}).metar_msg()
+                except Exception:  # noqa
+                    pass
             out.append(digest_of(c)[0])
         except Exception as exc:  # noqa
             out.append('crash:' + type(exc).__name__)
